@@ -257,7 +257,7 @@ pub mod ioreader {
 		assert!(<[u8; 0]>::decode(&mut empty).is_ok() && <[u16; 0]>::decode(&mut &bytes[..0]).is_ok());
 		core::mem::forget(r1);
 	}
-	#[kani::proof] #[kani::unwind(14)] pub fn c08t_ioreader_tuple() { h_ioreader::<(Compact<u32>, Option<u16>), 5>() }
+	#[kani::proof] #[kani::unwind(14)] pub fn c08t_ioreader_tuple() { h_ioreader::<(u8, Option<u16>), 4>() }
 	#[kani::proof] #[kani::unwind(14)] pub fn c08q_ioreader_opt_u16() { h_ioreader::<Option<u16>, 4>() }
 	#[kani::proof] #[kani::unwind(14)] pub fn c08q_ioreader_arr_u16() { h_ioreader::<[u16; 2], 5>() }
 	#[kani::proof] #[kani::unwind(14)] pub fn c08q_ioreader_arr_u8() { h_ioreader::<[u8; 4], 5>() }
@@ -274,3 +274,47 @@ pub fn c08n_twin_no_consumption_on_failure() {
 	let r = <(u8, u16)>::decode(&mut u);
 	assert!(r.is_ok() || u.0.len() == 2);
 }
+
+/// the library's wrapper inputs (counting, memory-limited, depth-limited) are TRANSPARENT at the level of the Input hooks: decoding
+/// through any of them shows the wrapped input exactly the same reads, the same allocation announcements and the same
+/// descend/ascend sequence as decoding on it directly -- so every guarantee stated for one input kind carries over to stacks
+pub fn h_wrappers_forward_hooks<T: DecodeWithMemTracking, const L: usize>(c: Option<u32>) {
+	let bytes: [u8; L] = kani::any();
+	let len: usize = kani::any();
+	kani::assume(len <= L);
+	macro_rules! mk { () => { match c { Some(c) => HookLog::new(Pre::count32(c, &bytes[..len])), None => HookLog::new(Pre::raw([0; 5], 0, &bytes[..len])) } }; }
+	let mut h0 = mk!();
+	let r0 = T::decode(&mut h0);
+	let mut h1 = mk!();
+	let mut ci = CountedInput::new(&mut h1);
+	let r1 = T::decode(&mut ci);
+	let counted = ci.count();
+	let mut h2 = mk!();
+	let mut mi = MemTrackingInput::new(&mut h2, usize::MAX);
+	let r2 = T::decode(&mut mi);
+	let tracked = mi.used_mem();
+	let mut h3 = mk!();
+	let r3 = T::decode_with_depth_limit(u32::MAX - 1, &mut h3);
+	macro_rules! same_log { ($h:ident, $r:ident, $what:literal) => {
+		assert!($r.is_ok() == r0.is_ok(), concat!($what, ": success differs from decoding on the wrapped input directly"));
+		assert!($h.reads == h0.reads && $h.inner.rest.len() == h0.inner.rest.len(), concat!($what, ": the wrapped input saw other reads"));
+		assert!($h.used == h0.used && $h.calls == h0.calls, concat!($what, ": allocation announcements were not forwarded unchanged"));
+		assert!($h.max_depth == h0.max_depth && $h.depth == h0.depth && $h.unbalanced == h0.unbalanced, concat!($what, ": descend/ascend were not forwarded unchanged"));
+	}; }
+	same_log!(h1, r1, "CountedInput");
+	same_log!(h2, r2, "MemTrackingInput");
+	same_log!(h3, r3, "decode_with_depth_limit");
+	assert!(counted == (len - h1.inner.rest.len() + h1.inner.pp) as u64, "CountedInput: count differs from the bytes delivered");
+	assert!(tracked == h2.used, "MemTrackingInput: used_mem differs from the announcements it forwarded");
+	if r0.is_ok() { assert!(h0.depth == 0 && !h0.unbalanced, "descend/ascend unbalanced after a successful decode"); }
+	kani::cover!(r0.is_ok() && h0.calls > 0 && h0.max_depth > 0, "info: accepted with announcements and nesting");
+	kani::cover!(r0.is_ok(), "reach: accepted");
+	kani::cover!(r0.is_err() && h0.reads > 1, "info: rejected after some reads");
+	core::mem::forget((r0, r1, r2, r3));
+}
+#[kani::proof] #[kani::unwind(8)] pub fn c08q_wrappers_box_opt() { h_wrappers_forward_hooks::<Box<Option<u16>>, 4>(None) }
+#[kani::proof] #[kani::unwind(8)] pub fn c08q_wrappers_vec_box_2() { h_wrappers_forward_hooks::<Vec<Box<u8>>, 3>(Some(2)) }
+#[kani::proof] #[kani::unwind(8)] pub fn c08q_wrappers_vec_u16_2() { h_wrappers_forward_hooks::<Vec<u16>, 5>(Some(2)) }
+#[kani::proof] #[kani::unwind(8)] pub fn c08t_wrappers_list_2() { h_wrappers_forward_hooks::<alloc::collections::LinkedList<u8>, 3>(Some(2)) }
+#[kani::proof] #[kani::unwind(8)] pub fn c08t_wrappers_tuple() { h_wrappers_forward_hooks::<(Box<u8>, Option<Box<bool>>), 4>(None) }
+#[kani::proof] #[kani::unwind(8)] pub fn c08t_wrappers_string_2() { h_wrappers_forward_hooks::<alloc::string::String, 3>(Some(2)) }
